@@ -16,7 +16,7 @@ Apply(d, r) ==
   CASE r.e = "reset" -> DInit(r.sync, r.async, r.max)
     [] r.e = "po" -> POpened(d, r.per)
     [] r.e = "pe" -> PClosed(d)
-    [] r.e = "s" -> PSend(d, r.m, r.per, r.n, r.len, r.r, r.w, r.idn)
+    [] r.e = "s" -> PSendH(d, r.m, r.per, r.n, r.len, r.r, r.w, r.idn, r.hg)
     [] r.e = "d" -> PDeliver(d, r.m, r.per, r.n, r.len, r.ok, r.idn)
     [] r.e = "end" -> PEnd(d, r.open)
     [] OTHER -> d
